@@ -97,7 +97,7 @@ static uint32_t sym_char(int wide, int s) {
     static const uint32_t wid[5] = {0x0100, ',', 'b', 0x3B00, 0x2D2D};
     /* second wide alphabet: the non-delimiters are TRUNCATION LOOK-ALIKES of the delimiters (same low 16 bits, same low 8 bits):
      * a comparison made through a narrower type takes them for delimiters */
-    static const uint32_t wid2[5] = {0x1002C /* low 16 bits: ',' */, ',', 0x012C /* low 8 bits: ',' */, 0x3B00, 0x13B00 /* low 16 bits: the other delimiter */};
+    static const uint32_t wid2[5] = {0x1002C /* low 16 bits: ',' */, ',', 0x012C /* low 8 bits: ',' */, 0xDC00 /* a delimiter from the surrogate range: a value like any other for a 32-bit wchar_t */, 0x1DC00 /* low 16 bits: that delimiter */};
     if (s < SY_FILL0) return wide == 2 ? wid2[s] : wide ? wid[s] : nar[s];
     return (wide ? 0x4100u : (uint32_t)'A') + (uint32_t)(s - SY_FILL0);
 }
